@@ -1,6 +1,7 @@
 SPECIFICATION TSpec
 CONSTANTS
   MaxSet = 99
+  Bases <- BasesNone
   Ordered = FALSE
 INVARIANT Done
 CHECK_DEADLOCK FALSE
